@@ -180,7 +180,11 @@ def m_truncating_division(rec, clause, detail, finding):
     '''a subscript with an integer division (i/2, (i+1)/2, i*i/2) is treated as
     exact rational arithmetic, so different iterations are believed to touch
     different elements'''
-    return clause == "Bernstein" and "/2" in rec["id"] and detail["var"] in ("a", "c")
+    # the division must apply to an expression of the analysed loop's variable i:
+    # i/2, (i+1)/2, i*i/2 - not a loop-invariant n/2
+    import re
+    return clause == "Bernstein" and detail["var"] in ("a", "c") and bool(
+        re.search(r"(\bi|\([^()]*\bi\b[^()]*\)|\bi\*i)/2", rec["id"]))
 
 
 def m_conditional_scalar(rec, clause, detail, finding):
